@@ -197,6 +197,64 @@ fn sparse_union_case(lg_a: u8, lg_b: u8, lg_u: u8, home_a: u32, home_b: u32, can
     core::mem::forget((a, b, u));
 }
 
+/// the first update of a fresh union with a one-coupon Sparse sketch: lg_k, coupon count and the stored coupon
+fn first_update_case(lg_src: u8, lg_u: u8, home: u32) {
+    let (a, ca) = sparse_source(lg_src, home);
+    let mut u = CpcUnion::new(lg_u);
+    u.update(&a);
+    let lg = if lg_src < lg_u { lg_src } else { lg_u };
+    assert!(u.lg_k() == lg, "union lg_k is not the smaller of its own and the input's");
+    assert!(u.num_coupons() == 1, "one coupon in, not one coupon held");
+    match &u.state {
+        UnionState::Accumulator(acc) => {
+            assert!(acc.lg_k() == lg, "accumulator sketch has another lg_k than the union");
+            let sl = acc.surprising_value_table().slots();
+            let want = fold_rc(ca, lg);
+            let mut n = 0;
+            let mut i = 0;
+            while i < sl.len() && i < 8 {
+                if sl[i] != u32::MAX {
+                    assert!(sl[i] == want, "accumulator holds a coupon that is not the input's coupon folded to the union's lg_k");
+                    n += 1;
+                }
+                i += 1;
+            }
+            assert!(n == 1);
+        }
+        UnionState::BitMatrix(_) => assert!(false, "one Sparse input cannot graduate the union"),
+    }
+    kani::cover!(true);
+    core::mem::forget((a, u));
+}
+
+macro_rules! cpc_union_first {
+    ($name:ident, $lgs:expr, $lgu:expr, $home:expr) => {
+        #[kani::proof]
+        #[kani::unwind(10)]
+        #[kani::stub(CpcSketch::update_hip, cut_update_hip)]
+        fn $name() {
+            first_update_case($lgs, $lgu, $home);
+        }
+    };
+}
+
+//@ family: cpc_union_first
+//@ props: C06 C17
+//@ tier: thorough
+//@ timeout: 1800
+//@ functions: cpc::union::CpcUnion::update
+//@ functions: cpc::union::CpcUnion::reduce_k
+//@ functions: cpc::union::walk_table_updating_sketch
+//@ functions: cpc::sketch::CpcSketch::row_col_update
+//@ unwind: 10
+//@ stubs: CpcSketch::update_hip -> no-op (cut: f64 HIP accumulators are not read by the union)
+//@ bounds: a fresh union (lg_k 5 or 6) receiving one Sparse sketch of one symbolic coupon (lg_k 5 or 6; concrete table layout: the coupon's home slot fixed per instance, all other row bits and the column symbolic)
+//@ desc: after the first update the union's lg_k is the smaller of its own and the input's, it holds exactly one coupon, and that coupon is the input's folded to the union's lg_k - also when the larger-lg_k input arrives at an empty union (no adoption of the input's lg_k)
+cpc_union_first!(c06_union_first_update_same_k, 5, 5, 1); //@ tier: quick
+cpc_union_first!(c06_union_first_update_larger_input, 6, 5, 2); //@ tier: quick
+cpc_union_first!(c06_union_first_update_smaller_input, 5, 6, 3); //@ tier: quick
+//@ endfamily: x
+
 macro_rules! cpc_union_sparse {
     ($name:ident, $lga:expr, $lgb:expr, $lgu:expr, $ha:expr, $hb:expr, $col:expr) => {
         #[kani::proof]
@@ -223,12 +281,12 @@ macro_rules! cpc_union_sparse {
 //@ stubs: CpcSketch::update_hip -> no-op (cut: f64 HIP accumulators are not read by the union; the merged result is estimated by ICON)
 //@ bounds: two Sparse input sketches of one symbolic coupon each (any column, any row within the quarter of the rows given by the instance's home slots - concrete table layouts), lg_k (a, b, union) and home slots per instance: (5,5,5) adopt-then-walk, (6,5,5) larger input first into an empty union, (5,6,5) larger input second, (6,5,6) reduce_k of a non-empty accumulator; the union stays in accumulator (Sparse) form
 //@ desc: after each update the union's lg_k is the smallest seen, its coupon count is the population count of the OR of the inputs' matrices folded to that lg_k, and to_sketch() is a merged Sparse sketch whose table holds exactly the folded coupons of the inputs (colliding coupons once) - for a Sparse sketch the table is the matrix
-cpc_union_sparse!(c06_union_sparse_same_k, 5, 5, 5, 1, 1, true); //@ tier: quick
+cpc_union_sparse!(c06_union_sparse_same_k, 5, 5, 5, 1, 1, true);
 cpc_union_sparse!(c06_union_sparse_same_k_far, 5, 5, 5, 3, 0, false);
-cpc_union_sparse!(c06_union_sparse_fold_first, 6, 5, 5, 2, 1, true); //@ tier: quick
+cpc_union_sparse!(c06_union_sparse_fold_first, 6, 5, 5, 2, 1, true);
 cpc_union_sparse!(c06_union_sparse_fold_second, 5, 6, 5, 0, 3, false);
 cpc_union_sparse!(c06_union_sparse_fold_collide, 5, 6, 5, 1, 2, true);
-cpc_union_sparse!(c06_union_sparse_reduce_k, 6, 5, 6, 3, 3, true); //@ tier: quick
+cpc_union_sparse!(c06_union_sparse_reduce_k, 6, 5, 6, 3, 3, true);
 //@ endfamily: x
 
 // ---------------------------------------------------------------------------------------------
@@ -346,7 +404,7 @@ macro_rules! cpc_union_matrix {
 //@ unwind: 18
 //@ bounds: union of lg_k 4 in bit-matrix form with all 16 rows symbolic; input sketch of lg_k 4 given by its fields: Sparse (1 coupon), or windowed with a concrete window offset per instance (0: Hybrid / Pinned, 1 and 3: Sliding), symbolic window bytes, <= 3 symbolic surprising values outside the window, coupon count consistent with offset and flavor
 //@ desc: whatever the input's flavor, update() ORs exactly the matrix the input denotes (window bits shifted by the offset, early-zone default ones, surprising values flipped) into the union's matrix and the coupon count follows
-cpc_union_matrix!(c06_union_matrix_sparse_input, 0, true); //@ tier: quick
+cpc_union_matrix!(c06_union_matrix_sparse_input, 0, true);
 cpc_union_matrix!(c06_union_matrix_hybrid_pinned_input, 0, false); //@ tier: quick
 cpc_union_matrix!(c06_union_matrix_sliding_input_1, 1, false); //@ tier: quick
 cpc_union_matrix!(c06_union_matrix_sliding_input_3, 3, false);
